@@ -30,7 +30,8 @@ def mounts_of(case):
     ms = ['/'] + [m for m in w.get('mounts', []) if m != '/']
     ms = sorted(set(ms))
     if order:
-        ms = [m for m in order if m in ms] + [m for m in ms if m not in order]
+        seen = set()
+        ms = [m for m in order if m in ms and not (m in seen or seen.add(m))] + [m for m in ms if m not in order]
     return ms
 
 
